@@ -5,6 +5,8 @@ import PetgraphModel.Proofs.CsrCanon
 import PetgraphModel.Proofs.CsrFromSorted
 import PetgraphModel.Proofs.CsrIter
 import PetgraphModel.Proofs.AdjList
+import PetgraphModel.Proofs.C05W3Csr
+import PetgraphModel.Proofs.C05W3List
 /-
 C05 — `Csr` and `adj::List`, the append-only graphs, report exactly what was inserted.
 
@@ -13,6 +15,17 @@ Every theorem is about the mirror models `CsrM` / `AdjM` (tied to `/repo/src/csr
 the exact correspondence run of `./check C05`) and the abstract specifications `AppendSpec.SG` (a finite
 map from node pairs to weights) / `AppendSpec.ML` (the insertion log).  All statements quantify over the
 binary-search cut-off, the index width, the edge type and `debug`.
+
+**Scope restriction (finding D31).**  The refinement theorems carry a hypothesis `Fits` / `LFits` / `hfit`:
+no `add_node*` call is made while `node_count` has already reached the capacity of the index type
+(`modulus` = 256 for `u8`, 65536 for `u16`, …; `modulus = 0` models `usize` = no bound).  This is not a
+convenience assumption: beyond the capacity the real code does *not* meet the specification.  `Csr::add_node`
+and `adj::List::add_node` / `add_node_with_capacity` / `add_node_from_edges` return `Ix::new(i)` = `i as u8`,
+which silently WRAPS: the 257th node of a `Csr<_, _, _, u8>` is reported as index 0, a node that already
+exists (no panic, no `Err`, unlike `Graph::add_node`, which asserts).  The models reproduce the wrap
+(`mkIx`), and `C05_csr_add_node_wraps`, `C05_csr_add_node_wraps_counterexample`, `C05_list_add_node_wraps`,
+`C05_list_add_node_wraps_counterexample` below prove it.  Histories beyond the capacity are therefore
+*excluded* from every `Fits`-hypothesis theorem, and nothing is claimed about them except these findings.
 -/
 namespace PetgraphModel.C05T
 open PetgraphModel PetgraphModel.AppendSpec
@@ -33,7 +46,10 @@ abbrev Inv (s : State) : Prop := ∃ R, Good s R
 abbrev Abs := CsrProofs.Abs
 abbrev specStep := CsrProofs.specStep
 abbrev specRun := CsrProofs.specRun
-/-- no `add_node` beyond the capacity of the index type -/
+/-- `Fits m n ops`: starting from `n` nodes, no `add_node` in `ops` is issued when the node count has already
+reached the capacity `m` of the index type (`m = 0`: unbounded).  Histories that violate this are EXCLUDED
+from the theorems below because of the recorded finding D31: there `add_node` returns the wrapped index
+`node_count % m` of an already existing node (`C05_csr_add_node_wraps`). -/
 abbrev Fits := CsrProofs.Fits
 abbrev SGEquiv := CsrProofs.SGEquiv
 abbrev SameParams := CsrProofs.SameParams
@@ -167,7 +183,9 @@ theorem C05_csr_no_panic (s : State) (h : Inv s) (op : Op)
     · simp [step, CsrM.addEdge, good.tryAddEdge_present a b w hv.1 hv.2 hp]
 
 /-- **refinement, one call**: invariant and abstraction are preserved and the answer is the one the
-abstract simple graph prescribes (`true`/`false`/`Err`/panic, the new node's index). -/
+abstract simple graph prescribes (`true`/`false`/`Err`/panic, the new node's index).
+`hfit`: an `add_node` call is only covered while `node_count < modulus` (or `modulus = 0`); at the capacity of
+the index type the call is excluded because its answer is wrong — finding D31, `C05_csr_add_node_wraps`. -/
 theorem C05_csr_refines_step (s : State) (R : List CsrProofs.Row) (g : SG) (good : Good s R) (abs : Abs s R g)
     (op : Op) (hfit : ∀ w, op = .addNode w → s.modulus = 0 ∨ s.nodeCount < s.modulus) :
     ∃ R', Good (step s op).1 R' ∧ Abs (step s op).1 R' (specStep g op).1 ∧ (step s op).2 = (specStep g op).2 := by
@@ -178,7 +196,10 @@ theorem C05_csr_refines_step (s : State) (R : List CsrProofs.Row) (g : SG) (good
 /-- **refinement, all histories**: after any sequence of `add_node`/`add_edge`/`try_add_edge`/`clear_edges`/
 `IndexMut` calls (valid or not) on `with_nodes(n)` (`new()` is `n = 0`), directed or undirected, any index
 width and cut-off: the invariant holds, the state represents exactly the abstract graph the same calls build,
-and every answer along the way was the specified one. -/
+and every answer along the way was the specified one.
+`hf : Fits m n ops` restricts the histories to those that never call `add_node` at the capacity of the index
+type; histories beyond it are excluded, not proved harmless: there `add_node` wraps to the index of a live
+node (finding D31, `C05_csr_add_node_wraps_counterexample`). -/
 theorem C05_csr_all_histories (d : Bool) (m c : Nat) (dbg : Bool) (n : Nat) (ops : List Op) (hf : Fits m n ops) :
     let s := (run (withNodes d m c dbg n) ops).1
     let g0 : SG := { directed := d, nodes := List.replicate n 0, edges := [] }
@@ -191,7 +212,15 @@ theorem C05_csr_all_histories (d : Bool) (m c : Nat) (dbg : Bool) (n : Nat) (ops
 
 /-- **the readers report exactly the abstract graph**: `neighbors_slice`/`edges_slice` are the ascending
 successor list with its weights, `out_degree` its length, `contains_edge` membership, `edge_count` the number
-of edges, `Index` the node weight; at `a = node_count` they answer "empty", beyond that they panic. -/
+of edges, `Index` the node weight; at `a = node_count` they answer "empty", beyond that they panic.
+
+**Remark R-C05-1.**  The clause for `a = g.n` (= `node_count`) ADOPTS THE IMPLEMENTATION'S BEHAVIOUR, not the
+documentation's: `neighbors_slice`, `edges_slice`, `out_degree`, `contains_edge` (and `edges`, see
+`C05_csr_edges_iter`) are all documented "**Panics** if the node `a` does not exist", and node `node_count`
+does not exist — yet `neighbors_range` reads `row[a]` (present: `row` has `node_count + 1` entries) and
+`row.get(a + 1)` (`None` → `column.len()`), so the call returns the empty answer without panicking.  The
+theorem records what the code does (`some []` / `some 0` / `some false`); it is *not* evidence that the
+documented panic happens.  The documented panic is only proved for `a > node_count` (third clause). -/
 theorem C05_csr_readers (s : State) (R : List CsrProofs.Row) (g : SG) (good : Good s R) (abs : Abs s R g) (a : Nat) :
     (a < g.n →
       neighborsSlice s a = some ((g.succ a).map (·.1)) ∧
@@ -207,7 +236,8 @@ theorem C05_csr_readers (s : State) (R : List CsrProofs.Row) (g : SG) (good : Go
   readers good abs a
 
 /-- **`edges(a)`** yields, for an existing node, exactly `(a, target, weight)` for the specified successors, in
-ascending target order, with the consecutive edge ids `row[a], row[a]+1, …`; empty at `a = node_count`, panic beyond. -/
+ascending target order, with the consecutive edge ids `row[a], row[a]+1, …`; empty at `a = node_count`
+(implementation behaviour, not the documented panic — remark R-C05-1 at `C05_csr_readers`), panic beyond. -/
 theorem C05_csr_edges_iter (s : State) (R : List CsrProofs.Row) (g : SG) (good : Good s R) (abs : Abs s R g) (a : Nat) :
     (a < g.n → ∃ refs, edgesOf s a = some refs ∧
       refs.map (fun e => (e.2.1, e.2.2.1, e.2.2.2)) = (g.succ a).map (fun x => (a, x.1, x.2)) ∧
@@ -236,7 +266,8 @@ theorem C05_csr_canonical (s1 s2 : State) (R1 R2 : List CsrProofs.Row) (g1 g2 : 
   canonical good1 good2 abs1 abs2 sp hg
 
 /-- **insertion-order independence**: two call histories from the same start after which the specification
-holds the same abstract graph (the order of its edge list is not compared) leave the same `Csr` value. -/
+holds the same abstract graph (the order of its edge list is not compared) leave the same `Csr` value.
+(`Fits`: both histories stay within the capacity of the index type — finding D31 excludes the others.) -/
 theorem C05_csr_order_independent (d : Bool) (m c : Nat) (dbg : Bool) (n : Nat) (ops1 ops2 : List Op)
     (h1 : Fits m n ops1) (h2 : Fits m n ops2)
     (heq : SGEquiv (specRun { directed := d, nodes := List.replicate n 0, edges := [] } ops1).1
@@ -279,6 +310,78 @@ example : (run (withNodes false 256 32 true 3) [.addEdge 0 2 5, .tryAddEdge 2 1 
 example : (run (withNodes false 256 32 true 3) [.tryAddEdge 1 2 7, .addEdge 2 0 5]).1
     = (run (withNodes false 256 32 true 3) [.addEdge 0 2 5, .tryAddEdge 2 1 7, .addEdge 0 2 9, .tryAddEdge 1 3 1]).1 := by decide
 
+/-! ### wave 3: node readers, capacity of the index type (finding D31) -/
+
+/-- **`node_identifiers()` / `node_references()` / `IntoNeighbors::neighbors`**: within the capacity of the index
+type (`hcap`; otherwise `Ix::new(i)` wraps — D31) `node_identifiers()` yields `0, 1, …, n-1`,
+`node_references()` pairs each index with the specified node weight, and `neighbors(a)` (which is
+`neighbors_slice(a).iter()`) yields the specified successors of an existing node in ascending order. -/
+theorem C05_csr_node_readers (s : State) (R : List CsrProofs.Row) (g : SG) (good : Good s R) (abs : Abs s R g)
+    (hcap : s.modulus = 0 ∨ g.n ≤ s.modulus) :
+    nodeIdentifiers s = List.range g.n ∧ nodeReferences s = (List.range g.n).zip g.nodes ∧
+    ∀ a, a < g.n → neighborsSlice s a = some ((g.succ a).map (·.1)) :=
+  ⟨(node_readers good abs hcap).1, (node_readers good abs hcap).2, fun a ha => ((readers good abs a).1 ha).1⟩
+
+/-- … without the capacity assumption: each position is passed through `Ix::new` (`mkIx`), so beyond the capacity
+the same identifier is yielded for several nodes. -/
+theorem C05_csr_node_readers_raw (s : State) (R : List CsrProofs.Row) (g : SG) (good : Good s R) (abs : Abs s R g) :
+    nodeIdentifiers s = (List.range g.n).map (mkIx s.modulus) ∧
+    nodeReferences s = ((List.range g.n).map (mkIx s.modulus)).zip g.nodes :=
+  node_readers_raw good abs
+
+/-- **node readers, all histories**: after any history from `with_nodes(n)` that stays within the capacity of the
+index type (`n ≤ m` to begin with, `Fits` afterwards — D31 excludes the rest) the node readers report exactly the
+nodes of the abstract graph the same calls build. -/
+theorem C05_csr_node_readers_all_histories (d : Bool) (m c : Nat) (dbg : Bool) (n : Nat) (ops : List Op)
+    (hf : Fits m n ops) (hn : m = 0 ∨ n ≤ m) :
+    let s := (run (withNodes d m c dbg n) ops).1
+    let g := (specRun { directed := d, nodes := List.replicate n 0, edges := [] } ops).1
+    nodeIdentifiers s = List.range g.n ∧ nodeReferences s = (List.range g.n).zip g.nodes ∧
+    s.nodeCount = g.n ∧
+    ∀ a, a < g.n → neighborsSlice s a = some ((g.succ a).map (·.1)) :=
+  run_node_readers d m c dbg n ops hf hn
+
+/-- a history that `Fits` ends within the capacity of the index type -/
+theorem C05_csr_fits_capacity (m : Nat) (ops : List Op) (g : SG) (hf : Fits m g.n ops) (hc : m = 0 ∨ g.n ≤ m) :
+    m = 0 ∨ (specRun g ops).1.n ≤ m :=
+  CsrProofs.fits_cap m ops g hf hc
+
+/-- **finding D31, general form**: in every valid `Csr` state whose node count has reached the capacity of the
+index type (`modulus ≠ 0`, `modulus ≤ node_count`; for `u8`: 256 nodes) `add_node` does not panic and returns
+`node_count % modulus` — strictly below `node_count`, i.e. the index of a node that ALREADY EXISTS — whereas the
+specification answers the fresh index `node_count`.  The representation invariant survives (the row is added);
+the returned index is wrong. -/
+theorem C05_csr_add_node_wraps (s : State) (R : List CsrProofs.Row) (g : SG) (good : Good s R) (abs : Abs s R g)
+    (hm : s.modulus ≠ 0) (hc : s.modulus ≤ g.n) (w : Int) :
+    (step s (.addNode w)).2 = .ix (g.n % s.modulus) ∧ g.n % s.modulus < g.n ∧
+    (specStep g (.addNode w)).2 = .ix g.n ∧
+    (step s (.addNode w)).2 ≠ (specStep g (.addNode w)).2 ∧
+    Good (step s (.addNode w)).1 (R ++ [[]]) :=
+  addNode_wraps good abs hm hc w
+
+/-- the node index an answer carries, if it is one (`Out` has no decidable equality) -/
+abbrev outIx := CsrProofs.outIx
+
+/-- **finding D31, concrete witness** (a 2-bit index type, `modulus = 4`; the `u8` case is the instance
+`modulus = 256` of `C05_csr_add_node_wraps`): five `add_node` calls on `Csr::new()` — the history does not `Fit` —
+answer `0, 1, 2, 3, 0`: the fifth node is reported as index 0, which is already live (weight 10), while the
+specification answers `0, 1, 2, 3, 4`.  Afterwards `node_count() = 5` but `node_identifiers()` yields 0 twice and
+`node_references()` attaches the fifth weight to index 0; `Index[0]` is still the first node. -/
+theorem C05_csr_add_node_wraps_counterexample :
+    ¬ Fits 4 0 [.addNode 10, .addNode 11, .addNode 12, .addNode 13, .addNode 14] ∧
+    ((run (new true 4 32 true) [.addNode 10, .addNode 11, .addNode 12, .addNode 13, .addNode 14]).2.map outIx
+        = [some 0, some 1, some 2, some 3, some 0] ∧
+     (specRun {} [.addNode 10, .addNode 11, .addNode 12, .addNode 13, .addNode 14]).2.map outIx
+        = [some 0, some 1, some 2, some 3, some 4] ∧
+     (run (new true 4 32 true) [.addNode 10, .addNode 11, .addNode 12, .addNode 13, .addNode 14]).1.nodeCount = 5 ∧
+     nodeIdentifiers (run (new true 4 32 true) [.addNode 10, .addNode 11, .addNode 12, .addNode 13, .addNode 14]).1
+        = [0, 1, 2, 3, 0] ∧
+     nodeReferences (run (new true 4 32 true) [.addNode 10, .addNode 11, .addNode 12, .addNode 13, .addNode 14]).1
+        = [(0, 10), (1, 11), (2, 12), (3, 13), (0, 14)] ∧
+     index (run (new true 4 32 true) [.addNode 10, .addNode 11, .addNode 12, .addNode 13, .addNode 14]).1 0
+        = some 10) := by
+  refine ⟨by simp [CsrProofs.Fits, CsrProofs.nodesAfter], by decide⟩
+
 end Csr
 
 /-! ## adj::List -/
@@ -290,11 +393,18 @@ open PetgraphModel.AdjM PetgraphModel.AdjProofs
 abbrev LAbs := AdjProofs.LAbs
 abbrev lspecStep := AdjProofs.specStep
 abbrev lspecRun := AdjProofs.specRun
+/-- `LFits m n ops`: starting from `n` nodes, no `add_node` / `add_node_from_edges` in `ops` is issued when the
+node count has already reached the capacity `m` of the index type (`m = 0`: unbounded; `clear` resets the
+count).  Histories that violate this are EXCLUDED from the theorems below because of the recorded finding
+D31: there `add_node*` returns the wrapped index `node_count % m` of an already existing node
+(`C05_list_add_node_wraps`). -/
 abbrev LFits := AdjProofs.Fits
 
 /-- **refinement, one call**: `add_node*`, `add_edge`, `update_edge`, `edge_weight_mut`, `clear` with arbitrary
 arguments act on the rows exactly as the specification acts on the insertion log, and answer the same
-(`EdgeIndex`, node index, documented panic + unchanged for an out-of-range endpoint). -/
+(`EdgeIndex`, node index, documented panic + unchanged for an out-of-range endpoint).
+`hfit`: an `add_node*` call is only covered while `node_count < modulus` (or `modulus = 0`); at the capacity of
+the index type the call is excluded because its answer is wrong — finding D31, `C05_list_add_node_wraps`. -/
 theorem C05_list_refines_step (s : AdjM.State) (g : ML) (h : LAbs s g) (op : AdjM.Op)
     (hfit : (op = .addNode ∨ ∃ es, op = .addNodeFromEdges es) → s.modulus = 0 ∨ g.n < s.modulus) :
     LAbs (AdjM.step s op).1 (lspecStep g op).1 ∧ (AdjM.step s op).2 = (lspecStep g op).2 := by
@@ -302,7 +412,10 @@ theorem C05_list_refines_step (s : AdjM.State) (g : ML) (h : LAbs s g) (op : Adj
   exact ⟨h1, h2⟩
 
 /-- **refinement, all histories** from `List::new()`: parallel edges are kept (the log only grows, except
-`clear`), every answer is the specified one. -/
+`clear`), every answer is the specified one.
+`hf : LFits m 0 ops` restricts the histories to those that never add a node at the capacity of the index type;
+histories beyond it are excluded, not proved harmless: there `add_node*` wraps to the index of a live node
+(finding D31, `C05_list_add_node_wraps_counterexample`). -/
 theorem C05_list_all_histories (m : Nat) (ops : List AdjM.Op) (hf : LFits m 0 ops) :
     LAbs (AdjM.run (AdjM.new m) ops).1 (lspecRun {} ops).1 ∧ (AdjM.run (AdjM.new m) ops).2 = (lspecRun {} ops).2 :=
   AdjProofs.run_refines (new_abs m) ops hf
@@ -344,6 +457,116 @@ example : LFits 256 0 [.addNode, .addNode, .addEdge 0 1 5, .addEdge 0 1 6, .upda
   simp [AdjProofs.Fits]
 example : (AdjM.run (AdjM.new 256) [.addNode, .addNode, .addEdge 0 1 5, .addEdge 0 1 6, .updateEdge 0 1 9, .addEdge 0 7 1]).1.suc
     = [[(1, 9), (1, 6)], []] := by decide
+
+/-! ### wave 3: whole-graph iteration, capacity of the index type (finding D31) -/
+
+/-- the `EdgeReference` the log prescribes for an edge: `(source, successor_index, target, weight)` -/
+abbrev lrefOf := AdjProofs.refOf
+
+/-- **`edge_count()`** is the length of the insertion log (every inserted edge counted once, parallel edges
+included). -/
+theorem C05_list_edge_count (s : AdjM.State) (g : ML) (h : LAbs s g) : s.edgeCount = g.edges.length :=
+  h.edgeCount
+
+/-- **`edge_references()` / `edge_indices()` / `node_indices()`** (the iterators run to completion), within the
+capacity of the index type (`hcap`; otherwise the row index wraps through `Ix::new` — D31):
+`edge_references()` yields the log GROUPED BY SOURCE — sources ascending, within one source in insertion order —
+each edge as `(source, successor_index, target, current weight)`; `edge_indices()` yields the indices of the same
+edges in the same order; `node_indices()` (= `node_identifiers()` = `node_references()`) yields `0, …, n-1`. -/
+theorem C05_list_iteration (s : AdjM.State) (g : ML) (h : LAbs s g) (hcap : s.modulus = 0 ∨ g.n ≤ s.modulus) :
+    AdjM.edgeReferences s = ((List.range g.n).flatMap fun a => (g.outOf a).map lrefOf) ∧
+    AdjM.edgeIndices s = ((List.range g.n).flatMap fun a => (g.outOf a).map (·.id)) ∧
+    AdjM.nodeIndices s = List.range g.n :=
+  h.iteration hcap
+
+/-- … without the capacity assumption: the row index is passed through `Ix::new` (`mkIx`), so beyond the capacity
+the edges of row `a` are reported with source `a % modulus`. -/
+theorem C05_list_iteration_raw (s : AdjM.State) (g : ML) (h : LAbs s g) :
+    AdjM.edgeReferences s = ((List.range g.n).flatMap fun a =>
+      (g.outOf a).map fun e => (AdjM.mkIx s.modulus a, e.id.2, e.tgt, e.w)) ∧
+    AdjM.edgeIndices s = ((List.range g.n).flatMap fun a =>
+      (g.outOf a).map fun e => (AdjM.mkIx s.modulus a, e.id.2)) ∧
+    AdjM.nodeIndices s = (List.range g.n).map (AdjM.mkIx s.modulus) :=
+  h.iteration_raw
+
+/-- the grouped order is a rearrangement of the log: **every inserted edge is yielded exactly once** (as a
+multiset, `edge_references()` is the whole log; nothing lost, nothing doubled). -/
+theorem C05_list_grouped_perm (s : AdjM.State) (g : ML) (h : LAbs s g) :
+    ((List.range g.n).flatMap g.outOf).Perm g.edges :=
+  h.grouped_perm
+
+/-- **`IntoEdges::edges(a)`** yields, for an existing node, exactly the edges inserted out of `a`, in insertion
+order, as `(a, successor_index, target, current weight)`; it panics for `a ≥ node_count`.  (No capacity
+assumption: the source of the references is the argument `a` itself.) -/
+theorem C05_list_edges_of (s : AdjM.State) (g : ML) (h : LAbs s g) (a : Nat) :
+    AdjM.edgesOf s a = if a < g.n then some ((g.outOf a).map lrefOf) else none :=
+  h.edgesOf a
+
+/-- a history that `LFits` ends within the capacity of the index type -/
+theorem C05_list_fits_capacity (m : Nat) (ops : List AdjM.Op) (g : ML) (hf : LFits m g.n ops)
+    (hc : m = 0 ∨ g.n ≤ m) : m = 0 ∨ (lspecRun g ops).1.n ≤ m :=
+  AdjProofs.fits_cap m ops g hf hc
+
+/-- **whole-graph iteration, all histories**: in every state reachable from `List::new()` by a history within
+the capacity of the index type (`LFits`; D31 excludes the rest), `edge_count`, `edge_references`, `edge_indices`,
+`node_indices` and `edges(a)` report exactly the insertion log the same calls build, grouped by source. -/
+theorem C05_list_iteration_all_histories (m : Nat) (ops : List AdjM.Op) (hf : LFits m 0 ops) :
+    let s := (AdjM.run (AdjM.new m) ops).1
+    let g := (lspecRun {} ops).1
+    s.edgeCount = g.edges.length ∧
+    AdjM.edgeReferences s = ((List.range g.n).flatMap fun a => (g.outOf a).map lrefOf) ∧
+    AdjM.edgeIndices s = ((List.range g.n).flatMap fun a => (g.outOf a).map (·.id)) ∧
+    AdjM.nodeIndices s = List.range g.n ∧
+    (∀ a, AdjM.edgesOf s a = if a < g.n then some ((g.outOf a).map lrefOf) else none) ∧
+    ((List.range g.n).flatMap g.outOf).Perm g.edges :=
+  AdjProofs.run_iteration m ops hf
+
+/-- **finding D31, general form**: in every state whose node count has reached the capacity of the index type
+(`modulus ≠ 0`, `modulus ≤ node_count`) `add_node` / `add_node_with_capacity` / `add_node_from_edges` do not panic
+and return `node_count % modulus` — strictly below `node_count`, i.e. the index of a node that ALREADY EXISTS —
+whereas the specification answers the fresh index `node_count`. -/
+theorem C05_list_add_node_wraps (s : AdjM.State) (g : ML) (h : LAbs s g) (hm : s.modulus ≠ 0)
+    (hc : s.modulus ≤ g.n) (es : AdjM.Row) :
+    (AdjM.step s .addNode).2 = .ix (g.n % s.modulus) ∧
+    (AdjM.step s (.addNodeFromEdges es)).2 = .ix (g.n % s.modulus) ∧
+    g.n % s.modulus < g.n ∧
+    (lspecStep g .addNode).2 = .ix g.n ∧ (lspecStep g (.addNodeFromEdges es)).2 = .ix g.n ∧
+    (AdjM.step s .addNode).2 ≠ (lspecStep g .addNode).2 :=
+  AdjProofs.addNode_wraps h hm hc es
+
+/-- **finding D31, concrete witness** (a 2-bit index type, `modulus = 4`; the `u8` case is the instance
+`modulus = 256` of `C05_list_add_node_wraps`): four `add_node`, then `add_node_from_edges([(1, 7)])` — the history
+does not `LFit` — answer `0, 1, 2, 3, 0`: the fifth node is reported as index 0, which is already live; the
+specification answers `0, 1, 2, 3, 4`.  Afterwards `node_count() = 5`, `node_indices()` yields 0 twice,
+`edge_references()` reports the fifth node's edge with source 0 (where `contains_edge(0, 1)` is false and
+`edges(0)` is empty), and `add_edge(returned index, …)` silently adds to the first node instead. -/
+theorem C05_list_add_node_wraps_counterexample :
+    ¬ LFits 4 0 [.addNode, .addNode, .addNode, .addNode, .addNodeFromEdges [(1, 7)]] ∧
+    ((AdjM.run (AdjM.new 4) [.addNode, .addNode, .addNode, .addNode, .addNodeFromEdges [(1, 7)]]).2
+        = [.ix 0, .ix 1, .ix 2, .ix 3, .ix 0] ∧
+     (lspecRun {} [.addNode, .addNode, .addNode, .addNode, .addNodeFromEdges [(1, 7)]]).2
+        = [.ix 0, .ix 1, .ix 2, .ix 3, .ix 4] ∧
+     (AdjM.run (AdjM.new 4) [.addNode, .addNode, .addNode, .addNode, .addNodeFromEdges [(1, 7)]]).1.nodeCount = 5 ∧
+     AdjM.nodeIndices (AdjM.run (AdjM.new 4) [.addNode, .addNode, .addNode, .addNode, .addNodeFromEdges [(1, 7)]]).1
+        = [0, 1, 2, 3, 0] ∧
+     AdjM.edgeReferences (AdjM.run (AdjM.new 4) [.addNode, .addNode, .addNode, .addNode, .addNodeFromEdges [(1, 7)]]).1
+        = [(0, 0, 1, 7)] ∧
+     AdjM.containsEdge (AdjM.run (AdjM.new 4) [.addNode, .addNode, .addNode, .addNode, .addNodeFromEdges [(1, 7)]]).1 0 1
+        = false ∧
+     AdjM.edgesOf (AdjM.run (AdjM.new 4) [.addNode, .addNode, .addNode, .addNode, .addNodeFromEdges [(1, 7)]]).1 0
+        = some [] ∧
+     (AdjM.run (AdjM.new 4) [.addNode, .addNode, .addNode, .addNode, .addNodeFromEdges [(1, 7)], .addEdge 0 2 9]).1.suc
+        = [[(2, 9)], [], [], [], [(1, 7)]]) := by
+  refine ⟨by simp [AdjProofs.Fits], by decide⟩
+
+/-! non-vacuity of the iteration theorem: parallel edges, an update, interleaved sources -/
+example : LFits 256 0 [.addNode, .addNode, .addEdge 1 0 5, .addEdge 0 1 6, .addEdge 1 0 7, .updateEdge 0 1 9] := by
+  simp [AdjProofs.Fits]
+example : AdjM.edgeReferences (AdjM.run (AdjM.new 256)
+      [.addNode, .addNode, .addEdge 1 0 5, .addEdge 0 1 6, .addEdge 1 0 7, .updateEdge 0 1 9]).1
+    = [(0, 0, 1, 9), (1, 0, 0, 5), (1, 1, 0, 7)] := by decide
+example : (lspecRun {} [.addNode, .addNode, .addEdge 1 0 5, .addEdge 0 1 6, .addEdge 1 0 7, .updateEdge 0 1 9]).1.edges.map lrefOf
+    = [(1, 0, 0, 5), (0, 0, 1, 9), (1, 1, 0, 7)] := by decide
 
 end AdjList
 
